@@ -163,4 +163,43 @@ Theorem no_failure_lost_refuted_without_drain :
   exists s, reach c_e4 s /\ cons s = CDone /\ produced_fail s = 1 /\ seen s = 0 /\ buf s = Some VFail.
 Proof. exact no_failure_lost_refuted_without_drain_l. Qed.
 Print Assumptions no_failure_lost_refuted_without_drain.
+
+(* K1 (known finding, C07 liveness half): the sender does a BLOCKING send on the capacity-1 channel after every
+   run.  From any reachable state, along any step sequence without a receiving poll, drain step, cancel or scope
+   exit (CPollSkip - a poll that picked the other channel or default - is allowed), the number of completed sends
+   is at most the free capacity at the start (so at most 1; from a full channel 0); when it is used up the buffer
+   is full, and a sender standing at its next send has NO enabled step: only a consumer step can unblock it.
+   Hence "keeps being re-run" fails while one long sequence executes (no poll happens). *)
+Theorem c07_mech_sender_stalls : forall (c : cfg) (s : st) (acts : list act) (s' : st),
+  reach c s -> forallb no_reader acts = true -> exec c s acts = Some s' ->
+  sends acts <= free s /\ sends acts <= 1 /\
+  (sends acts = free s -> buf s' <> None) /\
+  (forall v, buf s' <> None -> prod s' = PSend v -> forall a, is_producer a = true -> step c s' a = None).
+Proof. exact contchan_sender_stalls_without_reader_l. Qed.
+Print Assumptions c07_mech_sender_stalls.
+
+(* in general: completed sends <= free capacity at the start + receives during the run; and a receive leaves
+   exactly one free slot (each receiving poll re-enables exactly one further send) *)
+Theorem c07_mech_sends_bounded_by_reads : forall (c : cfg) (acts : list act) (s s' : st),
+  reach c s -> exec c s acts = Some s' -> sends acts + free s' <= free s + recvs acts.
+Proof. exact sends_bounded_by_reads_l. Qed.
+Print Assumptions c07_mech_sends_bounded_by_reads.
+
+Theorem c07_mech_recv_frees_one_slot : forall (c : cfg) (s : st) (a : act) (s' : st),
+  is_recv a = 1 -> step c s a = Some s' -> free s' = 1.
+Proof. exact recv_frees_one_slot_l. Qed.
+Print Assumptions c07_mech_recv_frees_one_slot.
+
+(* the premises are met on a concrete run (one send, then a second run whose verdict cannot be sent) *)
+Theorem c07_mech_sender_stalls_witness :
+  forallb no_reader k1_acts = true /\ sends k1_acts = 1 /\ free (init c_block) = 1 /\
+  match exec c_block (init c_block) k1_acts with
+  | Some s => prod s = PSend VOk /\ buf s = Some VOk /\
+              forallb (fun a => negb (is_producer a) || negb (is_some (step c_block s a))) all_acts = true /\
+              view (exec c_block s [CPollRecv; PSendA; PTick; PVerdict VOk]) = Some (PSend VOk, Some VOk, false, CPolling, 0, 0, false) /\
+              exec c_block s [CPollRecv; PSendA; PTick; PVerdict VOk; PSendA] = None
+  | None => False
+  end.
+Proof. exact k1_sender_stalls. Qed.
+Print Assumptions c07_mech_sender_stalls_witness.
 End K.
